@@ -149,5 +149,6 @@ theorem inv_cPop (h : Inv c s) (m : Msg) (y : Nat) (hpc : s.cpc = .pop m) (hp : 
         simp; omega
   case stopOf => simp
   case bootI => simp
+  case deadSeen => simp
 
 end TDV.PM
